@@ -200,6 +200,25 @@ def option_sets(r, ex, n=2):
     return res
 
 
+def option_sets_e2e(r, ex, n=2):
+    """as option_sets, but mostly options the reader accepts (the refusals are C12's / C15's subject): no --track mostly for single-track events,
+    an unknown track rarely"""
+    ts = [t for t, _ in ex["tracks"]]
+    res = []
+    for _ in range(n):
+        x = r.random()
+        if not ts:
+            track = None
+        elif x < 0.04:
+            track = 99
+        elif x < (0.40 if len(ts) == 1 else 0.08):
+            track = None
+        else:
+            track = r.choice(ts)
+        res.append((track, r.random() < 0.5, r.random() < 0.5))
+    return res
+
+
 def read_cases(ctx, seed, count):
     """reader correspondence: returns list of records {export id, opts, impl, code}"""
     r, exports = make_exports(ctx, seed, count)
@@ -291,7 +310,7 @@ def e2e_cases(ctx, seed, count, binpath, opts_fn=None, dense_assign=True, thread
     for ex in exports:
         if ex["export"]["kind"] != "partial" or not ex["tracks"]:
             continue
-        for (track, ic, ia) in (opts_fn(r, ex) if opts_fn else option_sets(r, ex, 2)):
+        for (track, ic, ia) in (opts_fn(r, ex) if opts_fn else option_sets_e2e(r, ex, 2)):
             outp = os.path.join(d, "import_%04d_%d.json" % (ex["id"], len(tasks)))
             if os.path.exists(outp):
                 os.remove(outp)
